@@ -283,3 +283,21 @@ class List_check_list_container:
             lo, hi = hi, lo
         return {'self': N.describe(ir.List(ir.String(), min_items=lo, max_items=hi)),
                 'val': _pick(rng, [[], [1], [1, 2], [1, 2, 3], [1, 2, 3, 4], None, 'ab', 3, {'a': 1}, True])}
+
+
+@contract(M + 'Timestamp.check', properties=P3, raises=[ValueError])
+class Timestamp_check:
+    """a string that strptime accepts for the declared format (axiom TS: strptime raises nothing but ValueError
+    on two strings)"""
+    params = {'self': Obj(ir.Timestamp), 'val': AnyVal()}
+
+    def requires(self, val):
+        return isinstance(self.format, str) and SI.grammar_value(val)
+
+    def expected(self, val):
+        return SI.check_outcome(isinstance(val, str) and S.strptime_ok(val, self.format))
+
+    def gen(rng):
+        t = ir.Timestamp(rng.choice(['%Y-%m-%d', '%Y', '%H:%M', '', '%Y-%m-%dT%H:%M:%SZ', '%q']))
+        return {'self': N.describe(t), 'val': _pick(rng, ['2020-01-02', '2020', '12:30', '', 'x', '2020-13-01', 3, None, True, 1.5,
+                                                         '2020-01-02T03:04:05Z', ['2020']])}
